@@ -183,6 +183,9 @@ def discrete_cases(rng, out, n, bounded, extreme=False):
         covs = [float(s) ** 2 for s in prop._std]
         stds = [float(s) for s in prop._std]
         prop.bit_generator = numpy.random.PCG64(1)
+        def reach(i, p):
+            # largest displacement whose cell starts within 4.5 standard deviations (rounding: cell (d-1/2, d+1/2); floor/ceil: (d-1, d])
+            return int(4.5 * stds[i] + 0.5) if succ[p] else int(4.5 * stds[i] + 1)
         # ---- logpdf at several pairs, queried in different orders, repeatedly
         pairs = []
         for _ in range(rng.choice([2, 3, 4])):
@@ -190,11 +193,11 @@ def discrete_cases(rng, out, n, bounded, extreme=False):
                 g = {p: rng.randint(*bnd[p]) for p in params}
                 # keep the move within ~4.5 standard deviations: further out the implementation's own cdf differences
                 # (1 - 1e-14 minus 1 - 4e-14) lose all relative accuracy, which is a floating-point matter, not the property
-                x = {p: max(bnd[p][0], min(bnd[p][1], g[p] + max(-int(4.5 * stds[i]) - 1, min(int(4.5 * stds[i]) + 1, rng.randint(-9, 9)))))
+                x = {p: max(bnd[p][0], min(bnd[p][1], g[p] + max(-reach(i, p), min(reach(i, p), rng.randint(-9, 9)))))
                      for i, p in enumerate(params)}
             else:
                 g = {p: rng.randint(-3, 3) for p in params}
-                x = {p: g[p] + max(-int(4 * stds[i]) - 1, min(int(4 * stds[i]) + 1, rng.randint(-6, 6))) for i, p in enumerate(params)}
+                x = {p: g[p] + max(-reach(i, p), min(reach(i, p), rng.randint(-6, 6))) for i, p in enumerate(params)}
             pairs.append((x, g))
         order = [rng.randrange(len(pairs)) for _ in range(len(pairs) * 3)]
         seen = {}
@@ -231,6 +234,9 @@ def discrete_cases(rng, out, n, bounded, extreme=False):
             with GenTap(script=sc):
                 try:
                     res = prop.jump(dict(fromx))
+                except IndexError:
+                    out.count('script_exhausted')       # thousands of rejected draws: how long a loop may take is C14's subject
+                    continue
                 except Exception as e:      # noqa
                     out.corr_failures.append(dict(note='jump raised %r' % (e,), case=dict(family=prop.name, fromx=fromx)))
                     continue
@@ -328,6 +334,9 @@ def bounded_normal_cases(rng, out, n, extreme=False):
             with GenTap(script=sc):
                 try:
                     res = prop.jump(dict(fromx))
+                except IndexError:
+                    out.count('script_exhausted')       # thousands of rejected draws: how long a loop may take is C14's subject
+                    continue
                 except Exception as e:      # noqa
                     out.corr_failures.append(dict(note='jump raised %r' % (e,), case=dict(family=prop.name, fromx=fromx, stds=stds)))
                     continue
@@ -399,8 +408,12 @@ def angular_cases(rng, out, n, extreme=False):
         for _ in range(5):
             fromx = {p: ang() for p in params}
             sc = Script(zs=zq(rng, 3000, extreme))
-            with GenTap(script=sc):
-                res = prop.jump(dict(fromx))
+            try:
+                with GenTap(script=sc):
+                    res = prop.jump(dict(fromx))
+            except IndexError:
+                out.count('script_exhausted')
+                continue
             out.evaluations += 1
             k = 0
             for p in params:
